@@ -220,3 +220,15 @@ TEXT["C19"] = _t("spec/Throttle.tla is model-checked exhaustively (bound, satura
 PROPS["C20"] = dict(run=gateway_run(["life"], ["stop", "stopped", "sockClosed", "openRefused"]))
 TEXT["C20"] = _t("Stop and loss of the messaging connection are injected at arbitrary steps of TLC-generated schedules (with requests, loads and evictions outstanding, gates held); the observer requires every socket closed, the cause on the stop channel, completion within the fake-time bounds, refusal while stopped, a working restart, and no panic.",
                  TECH)
+
+PROPS["C14"] = dict(run=tables.combine(tables.tables_run(["subjects"], "subject hygiene"),
+                                       gateway_run(["access", "gc"], ["mreq", "msub"])))
+TEXT["C14"] = _t("Every WebSocket method string (six request types) and HTTP GET/POST path over a 12/13-symbol alphabet (wildcards, whitespace, control characters, CR LF, DEL, non-ASCII, invalid UTF-8, percent-encodings of each, {cid}) up to length 3 (thorough 4) is sent to the real gateway; TLC checks the recorded subjects and responses against spec/fn/ResSubject.tla (valid => exactly the expected subjects, invalid => invalidRequest/404 and no traffic) and domain completeness. The observer additionally flags any malformed subject in every replayed schedule.",
+                 "exhaustive input table through the real WS/HTTP handlers checked by TLC against spec/fn/ResSubject.tla; malformed-subject rule of the observer on all gateway traces",
+                 note="Symbol alphabet, not all byte strings; inputs that Go's HTTP request parser rejects before the handler are outside the table. " + GW_NOTE)
+
+PROPS["C17"] = dict(run=tables.tables_run(["httpstatus", "origin"], "HTTP status / meta / CORS"))
+TEXT["C17"] = _t("Tables through the real Service.ServeHTTP: every predefined error code and custom ones on access / get / call; meta status values {-1,0,100,200,299,300..599 samples,600,1000} on header-auth, access and call responses with ok and error bases (status and the sequence of service requests after it); header names in three letter cases incl. the protected ones, Set-Cookie accumulation over auth+call meta, direct-response variants; Origin strings against an allow-list for GET, POST, OPTIONS with and without header authentication. matchesOrigins is additionally enumerated exhaustively over all origins <= 3 (4) symbols of an 11-symbol alphabet (ASCII and non-ASCII case pairs, Kelvin sign, two invalid bytes, U+FFFD) for all single and sampled double allow-lists. TLC checks every row against spec/fn/HttpStatus.tla and Origin.tla.",
+                 "function tables through the real HTTP handler and matchesOrigins, checked by TLC against spec/fn/HttpStatus.tla and spec/fn/Origin.tla",
+                 note="WebSocket upgrade rows (Sec-WebSocket-* protection) are not in the table yet; HTTP only. Bounded alphabets.")
+import json as _json
